@@ -3,7 +3,6 @@ using SP_c1_s = SplineTrajectory::CubicSplineND<1>;
 using TM_c1_s = env::SimTimeMap;
 using SM_c1_s = env::SimSpatialMap<1>;
 OPT_REGISTER_ONE(C12, P_C12, c1_s, SP_c1_s, TM_c1_s, SM_c1_s, true, 3)
-#ifndef STSIM_TSAN
 OPT_REGISTER_ONE(C07, P_C07, c1_s, SP_c1_s, TM_c1_s, SM_c1_s, true, 1)
 OPT_REGISTER_ONE(C08, P_C08, c1_s, SP_c1_s, TM_c1_s, SM_c1_s, true, 1)
 OPT_REGISTER_ONE(C09, P_C09, c1_s, SP_c1_s, TM_c1_s, SM_c1_s, true, 1)
@@ -11,4 +10,3 @@ OPT_REGISTER_ONE(C10, P_C10, c1_s, SP_c1_s, TM_c1_s, SM_c1_s, true, 1)
 OPT_REGISTER_ONE(C15, P_C15, c1_s, SP_c1_s, TM_c1_s, SM_c1_s, true, 3)
 OPT_REGISTER_ONE(C16, P_C16, c1_s, SP_c1_s, TM_c1_s, SM_c1_s, true, 1)
 OPT_REGISTER_ONE(C19, P_C19, c1_s, SP_c1_s, TM_c1_s, SM_c1_s, true, 1)
-#endif
